@@ -96,8 +96,13 @@ def run(chk):
                 e = fault_cls('exit')
                 excs[100] = e
                 raise e
+            class FalsyCallable(list):
+                """a callable that is false in a boolean context (an empty collecting list with __call__)"""
+                def __call__(self_, exc, info):
+                    return final(exc, info)
+            final_arg = FalsyCallable() if (fin_mode in ('ret', 'raise') and rng.random() < 0.3) else final
             conn = Connection('localhost', 25565, username='user', allowed_versions={pv},
-                              handle_exception={'none': None, 'false': False}.get(fin_mode, final),
+                              handle_exception={'none': None, 'false': False}.get(fin_mode, final_arg),
                               handle_exit=on_exit if origin == 'exit' else None)
             if origin in ('early', 'late', 'after-disconnect', 'self-disconnect'):
                 def boom(p):
@@ -119,13 +124,19 @@ def run(chk):
                 conn.register_packet_listener(boom_out, sb.play.KeepAlivePacket, outgoing=True, early=rng.random() < 0.5)
             handlers = []
             order = []
-            for i in range(rng.randrange(0, 5)):
+            funcs = []
+            # the first configurations are scripted: two catch-all returning handlers, then the first one registered once more
+            # (a third clause at the end of the chain; the first clause still catches)
+            scripted = cfg < 24
+            for i in range(2 if scripted else rng.randrange(0, 5)):
                 flt = sorted(set(rng.randrange(len(types)) for _ in range(rng.choice([0, 0, 1, 1, 2]))))
                 beh = rng.choice(['ret', 'ret', 'raise', 'raise'])
                 reconn = (not any_reconn[0]) and rng.random() < 0.12
                 any_reconn[0] = any_reconn[0] or reconn
                 raise_cls = rng.choice([E0, E1, E2, E3])
                 early = rng.random() < 0.3
+                if scripted:
+                    flt, beh, reconn, early = ([] if cfg % 3 else [0, 1, 2, 3]), 'ret', False, False
 
                 def h(exc, info, i=i, beh=beh, reconn=reconn, raise_cls=raise_cls):
                     log.append(('H', i, num(exc)))
@@ -138,6 +149,9 @@ def run(chk):
                 # the types as Python's except / isinstance take them: separate arguments, or nested tuples of types; a tuple that
                 # names no type at all matches nothing (it is not the same as giving no types, which catches everything)
                 arg_shape = rng.choice(['flat', 'flat', 'nested', 'empty-tuple'])
+                if scripted:
+                    arg_shape = 'flat'
+                funcs.append(h)
                 if arg_shape == 'empty-tuple':
                     flt = [never_idx]
                     conn.register_exception_handler(h, rng.choice([(), ((), ()), ((), ((),))]), early=early)
@@ -147,12 +161,17 @@ def run(chk):
                     conn.register_exception_handler(h, *[types[j] for j in flt], early=early)
                 handlers.append((i, flt, beh, reconn, raise_cls))
                 order = [len(handlers) - 1] + order if early else order + [len(handlers) - 1]
-                if beh == 'ret' and not reconn and arg_shape == 'flat' and rng.random() < 0.2:
+                if beh == 'ret' and not reconn and arg_shape == 'flat' and not scripted and rng.random() < 0.2:
                     # the same function registered once more with the same types (a second, independent clause of the chain)
                     early2 = rng.random() < 0.5
                     conn.register_exception_handler(h, *[types[j] for j in flt], early=early2)
                     handlers.append((i, flt, beh, reconn, raise_cls))
                     order = [len(handlers) - 1] + order if early2 else order + [len(handlers) - 1]
+            if scripted:
+                i0, flt0 = handlers[0][0], handlers[0][1]
+                conn.register_exception_handler(funcs[0], *[types[j] for j in flt0])
+                handlers.append(handlers[0])
+                order = order + [len(handlers) - 1]
             conn.connect()
             first_sock = None
             res = net.run_threads(conn, max_threads=1)
